@@ -26,7 +26,7 @@ Init == st = [mode |-> "init"]
 Next == st.mode = "init" /\
   \/ \E b \in Bodies : st' = [mode |-> "t0", body |-> b]
   \/ \E b \in Bodies : \E t \in TagNums : \E w \in WidthsFor(t) : st' = [mode |-> "t1", body |-> b, t1 |-> t, w1 |-> w]
-  \/ \E b \in Bodies : \E t \in RegTags : \E u \in {<<16>>, <<18>>, <<98>>, <<217, 247>>} :
+  \/ \E b \in Bodies : \E t \in RegTags \cup {<<217, 247>>} : \E u \in {<<16>>, <<17>>, <<18>>, <<96>>, <<97>>, <<98>>, <<217, 247>>} :
         st' = [mode |-> "t2", body |-> b, t1 |-> t, w1 |-> MinWidth(t), t2 |-> u]
 Spec == Init /\ [][Next]_st
 Go == st.mode # "init"
